@@ -440,5 +440,26 @@ func SquareSamples(samples []any) []any {
 		q4.MethodByName("Square").Call([]reflect.Value{sq})
 		out = append(out, sq.Interface(), q4.Interface())
 	}
+	// squares of the elements with a single non-zero coordinate (b e_k for b = 1, 3): in a quadratic extension these are
+	// the base-field elements b^2 and beta b^2 - the inputs on which a square-root routine takes its special branches
+	// (operand in the base field, residue or non-residue there)
+	if len(samples) > 0 {
+		t := reflect.TypeOf(samples[0]).Elem()
+		dim := len(Flatten(samples[0]))
+		for k := 0; k < dim && k < 4; k++ {
+			for _, b := range []int64{1, 3} {
+				c := make([]*big.Int, dim)
+				for i := range c {
+					c[i] = new(big.Int)
+				}
+				c[k] = big.NewInt(b)
+				v := reflect.New(t)
+				Unflatten(v.Interface(), c)
+				sq := reflect.New(t)
+				sq.MethodByName("Square").Call([]reflect.Value{v})
+				out = append(out, sq.Interface())
+			}
+		}
+	}
 	return out
 }
